@@ -31,6 +31,7 @@ func init() {
 var narrowExceptions = map[string]string{
 	"json.(ParseFlags).withKind|json.Kind->json.ParseFlags": "not a protocol quantity: Kind constants are checked to fit 8 bits by R-TOKEN",
 	"json.(decoder).parseUnicode|uint64->rune":              "value of exactly four hex digits (parseUintHex over a 4-byte window): at most 0xFFFF",
+	"proto.(bitOrRW).Rewrite|uint64->uint32":                "payload of an sint32 field: protobuf defines 32-bit kinds as the low 32 bits of the varint, which is what the struct codec keeps too",
 	"proto.structCodecOf|int->uint8":                        "sizeOfTag result: a varint is at most 10 bytes",
 	"proto.structCodecOf|uintptr->uint32":                   "reflect.StructField.Offset: a Go struct larger than 4 GiB cannot be a message type",
 	"thrift.(*binaryWriter).WriteMessage|int->uint32":       "encode side: length of a message name held in memory",
